@@ -173,6 +173,20 @@ def check(case):
             pts = co.T
             if not all(close(p[0], w[0]) and close(p[1], w[1]) and close(p[2], w[2]) for p, w in zip(pts, want)):
                 fails.append(('near:points', 'points differ from start+i*inc with x fastest, then y, then z; first %s expected %s' % (pts[:3].tolist(), want[:3])))
+        if not fails and n <= 200:
+            # a second request on the same object whose start and increments differ only in the sixth..seventh digit
+            # (a fine scan): the points are those of the second request
+            ax2 = [[a[0] * (1 + 3e-6) + 2e-9, a[1] * (1 - 2e-6), a[2]] for a in ax]
+            try:
+                m.compute_near_field([a[0] for a in ax2], [a[1] for a in ax2], [a[2] for a in ax2])
+                ex2 = [expected_axis(a) for a in ax2]
+                want2 = [(x, y, z) for z in ex2[2] for y in ex2[1] for x in ex2[0]]
+                co2 = np.asarray(m.near_field_coord)
+                if co2.shape != (3, n) or not all(abs(p[i] - w[i]) <= 1e-12 * max(1.0, abs(w[i])) for p, w in zip(co2.T, want2) for i in range(3)):
+                    fails.append(('near:points:second-request', 'after a request for %s the request %s gives points %s, expected %s'
+                                  % (ax, ax2, co2.T[:2].tolist(), want2[:2])))
+            except Exception as e:
+                fails.append(('near:exception:%s:second-request' % type(e).__name__, repr(e)[:200]))
         if not fails and n <= 60:
             r, out, err = run(argv)
             if r is not None:
